@@ -5,6 +5,7 @@ package fees
 
 import (
 	"encoding/binary"
+	"math/bits"
 	"sync"
 
 	"github.com/ava-labs/avalanchego/utils/math"
@@ -224,12 +225,7 @@ func computeNextPriceWindow(
 	if total > target {
 		// If the parent block used more units than its target, the baseFee should increase.
 		delta := total - target
-		x := previousPrice * delta
-		y := x / target
-		baseDelta := y / changeDenom
-		if baseDelta < 1 {
-			baseDelta = 1
-		}
+		baseDelta := proportionalDelta(previousPrice, delta, target, changeDenom)
 		n, over := math.Add(nextPrice, baseDelta)
 		if over != nil {
 			nextPrice = consts.MaxUint64
@@ -239,12 +235,7 @@ func computeNextPriceWindow(
 	} else if total < target {
 		// Otherwise if the parent block used less units than its target, the baseFee should decrease.
 		delta := target - total
-		x := previousPrice * delta
-		y := x / target
-		baseDelta := y / changeDenom
-		if baseDelta < 1 {
-			baseDelta = 1
-		}
+		baseDelta := proportionalDelta(previousPrice, delta, target, changeDenom)
 
 		// If [roll] is greater than [rollupWindow], apply the state transition to the base fee to account
 		// for the interval during which no blocks were produced.
@@ -252,7 +243,11 @@ func computeNextPriceWindow(
 		// that has elapsed between the parent and this block.
 		if since > window.WindowSize {
 			// Note: roll/rollupWindow must be greater than 1 since we've checked that roll > rollupWindow
-			baseDelta *= since / window.WindowSize
+			scaledDelta, over := math.Mul(baseDelta, since/window.WindowSize)
+			if over != nil {
+				scaledDelta = consts.MaxUint64
+			}
+			baseDelta = scaledDelta
 		}
 		n, under := math.Sub(nextPrice, baseDelta)
 		if under != nil {
@@ -265,6 +260,26 @@ func computeNextPriceWindow(
 		nextPrice = minPrice
 	}
 	return nextPrice, newRollupWindow
+}
+
+// proportionalDelta returns price * delta / target / changeDenom (at least 1),
+// computed on 128-bit intermediates so that the product cannot wrap, and
+// saturating at the maximum uint64 value.
+func proportionalDelta(price, delta, target, changeDenom uint64) uint64 {
+	hi, lo := bits.Mul64(price, delta)
+	// (hi, lo) / target
+	qHi, rem := hi/target, hi%target
+	qLo, _ := bits.Div64(rem, lo, target)
+	// (qHi, qLo) / changeDenom
+	resHi, rem := qHi/changeDenom, qHi%changeDenom
+	resLo, _ := bits.Div64(rem, qLo, changeDenom)
+	if resHi != 0 {
+		return consts.MaxUint64
+	}
+	if resLo < 1 {
+		return 1
+	}
+	return resLo
 }
 
 type Rules interface {
